@@ -39,8 +39,9 @@ TRUSTED = ['tools/facts_C17.py (fail-closed ast translator: Configuration field 
            'of two timers due at the same instant is an input of the model, read off the loop heap by the '
            'harness), h2 (PING / PING-ACK framing, stream .open), float arithmetic (exact on the dyadic grid '
            'the harness uses)',
-           'harness reads Connection.ping_count_in_sequence / last_ping_sent / _ping_handle / '
-           '_close_by_ping_handler and h2 stream states from outside for the per-step state comparison']
+           'the per-step state comparison reads Connection.ping_count_in_sequence / last_ping_sent (skipped when '
+           'absent), finds the two keepalive timers by role among loop._scheduled (callbacks bound to the '
+           'Connection object; the one bound to close() is the close timer) and h2 stream states by type']
 ASSUMPTIONS = ['instants and configured durations are multiples of 2^-10 s below 2^20 s (float arithmetic exact); '
                'outside that grid the theorems speak about the real numbers the floats approximate',
                'timers run at their due time (the virtual loop is never late); a real loop adds its scheduling '
@@ -83,6 +84,37 @@ def make_config(cfg):
         _keepalive_time=num(cfg['time']), _keepalive_timeout=num(cfg['timeout']),
         _keepalive_permit_without_calls=cfg['permit'], _http2_max_pings_without_data=cfg['maxp'],
         _http2_min_sent_ping_interval_without_data=num(cfg['minint']))
+
+
+# ---- the connection's keepalive timers, found by ROLE on the loop (never by attribute name): the
+#      handles of loop._scheduled whose callback is a bound method of the Connection object; the one
+#      bound to its public close() is the close timer, any other is the periodic ping timer
+
+def conn_handles(loop, conn, live_only=True):
+    out = []
+    for h in list(loop._scheduled):
+        if live_only and h._cancelled:
+            continue
+        cb = h._callback
+        cb = getattr(cb, 'func', cb)                     # functools.partial
+        if getattr(cb, '__self__', None) is conn:
+            out.append(h)
+    return out
+
+
+def is_close_handle(h):
+    cb = getattr(h._callback, 'func', h._callback)
+    return getattr(cb, '__name__', '') == 'close'
+
+
+def h2_of(conn, peer):
+    """the H2Connection the Connection object drives (looked up by type); the scripted peer's own h2
+    state is the fallback: both ends agree on which streams are open"""
+    from h2.connection import H2Connection
+    for v in vars(conn).values():
+        if isinstance(v, H2Connection):
+            return v
+    return peer.h2
 
 
 def split_frames(data):
@@ -129,23 +161,50 @@ class Run:
         return self.proto.connection
 
     def open_count(self):
-        return sum(1 for s in self.conn()._connection.streams.values() if s.open)
+        return sum(1 for s in h2_of(self.conn(), self.peer).streams.values() if s.open)
 
     def handle_when(self, h):
         if h is None or h.cancelled():
             return None
         return to_ticks(h.when())
 
+    def timers(self):
+        """(due ticks of the periodic ping timer, due ticks of the close timer), None = not armed"""
+        pt = ct = None
+        for h in conn_handles(self.loop, self.conn()):
+            w = to_ticks(h.when())
+            if is_close_handle(h):
+                ct = w if ct is None else min(ct, w)
+            else:
+                pt = w if pt is None else min(pt, w)
+        return pt, ct
+
     def snapshot(self):
+        """counter, open streams, ping timer, close timer, last ping, closed -- '?' for what cannot be
+        observed on this version of the code (the comparison skips such fields)"""
         c = self.conn()
-        closed = self.tr.closing or not hasattr(c, '_transport')
+        closed = self.tr.closing or self.tr.lost
 
         def w(x):
             return '-' if x is None else str(x)
-        return '%d,%d,%s,%s,%s,%d' % (
-            c.ping_count_in_sequence, self.open_count(), w(self.handle_when(c._ping_handle)),
-            w(self.handle_when(c._close_by_ping_handler)), w(to_ticks(c.last_ping_sent)),
+        pt, ct = self.timers()
+        cnt = getattr(c, 'ping_count_in_sequence', '?')
+        lp = getattr(c, 'last_ping_sent', '?')
+        return '%s,%d,%s,%s,%s,%d' % (
+            cnt if isinstance(cnt, int) else '?', self.open_count(), w(pt), w(ct),
+            w(to_ticks(lp)) if (lp is None or isinstance(lp, (int, float))) else '?',
             1 if closed else 0)
+
+    def ping_handles(self):
+        """every periodic-timer handle the connection has created so far (recorded at loop.call_at, the
+        public asyncio entry point; cancelled ones included)"""
+        conn = self.conn()
+        out = []
+        for h, cb in self.created:           # (cancel() clears a handle's callback: kept separately)
+            cb = getattr(cb, 'func', cb)
+            if getattr(cb, '__self__', None) is conn and getattr(cb, '__name__', '') != 'close':
+                out.append(h)
+        return out
 
     def on_write(self, data):
         from h2.events import (PingReceived, DataReceived, RequestReceived, ResponseReceived,
@@ -199,7 +258,7 @@ class Run:
     # ---- model events
     def begin(self):
         self.step_items = []
-        self.ping_handle_before = self.conn()._ping_handle
+        self.ping_handles_before = self.ping_handles()
 
     def emit(self, evs, skip_at=None):
         """close one harness step that corresponds to the model events `evs` (a list; a composite
@@ -211,9 +270,9 @@ class Run:
             return
         items = list(self.step_items)
         c = self.conn()
-        if skip_at is not None and c._ping_handle is not self.ping_handle_before \
-                and not any(i.startswith('P@') for i in items):
-            items.insert(0, 'S@%d' % skip_at)        # _ping ran (it re-armed) and sent nothing
+        rearmed = len(self.ping_handles()) > len(self.ping_handles_before)
+        if skip_at is not None and rearmed and not any(i.startswith('P@') for i in items):
+            items.insert(0, 'S@%d' % skip_at)        # the ping callback ran (it re-armed) and sent nothing
         items.sort(key=lambda i: {'P': 0, 'S': 0, 'X': 1}[i[0]])
         for e in evs[:-1]:
             self.events.append(e)
@@ -221,7 +280,7 @@ class Run:
         self.events.append(evs[-1])
         self.obs.append((','.join(items) if items else '-') + '|' + self.snapshot())
         self.step_items = []
-        self.ping_handle_before = c._ping_handle
+        self.ping_handles_before = self.ping_handles()
 
     def sync_opens(self):
         """h2's view of open streams is an input of the model: StreamOpened/StreamClosed events"""
@@ -246,16 +305,14 @@ class Run:
     def close_first(self, when):
         """asyncio's order for two timers due at the same instant: which callback is popped first"""
         conn = self.conn()
-        due = [h for h in self.live_timers() if to_ticks(h._when) == when
-               and getattr(h._callback, '__self__', None) is conn
-               and getattr(h._callback, '__name__', '') in ('_ping', 'close')]
+        due = [h for h in conn_handles(self.loop, conn) if to_ticks(h._when) == when]
         if len(due) < 2:
             return False
         heap = list(self.loop._scheduled)
         while heap:
             h = heapq.heappop(heap)
             if h in due:
-                cf = getattr(h._callback, '__name__', '') == 'close'
+                cf = is_close_handle(h)
                 self.ties.append(cf)
                 return cf
         return False
@@ -435,6 +492,14 @@ class Run:
         case = self.case
         with vloop.session() as loop:
             self.loop = loop
+            self.created = []
+            orig_call_at = loop.call_at
+
+            def call_at(when, callback, *args, **kw):
+                h = orig_call_at(when, callback, *args, **kw)
+                self.created.append((h, callback))
+                return h
+            loop.call_at = call_at
             loop.run_until(secs(case['t0']))
             self.ack_frames, self.other_out, self.step_items = [], [], []
             self.started = []
@@ -455,7 +520,7 @@ class Run:
             self.tr.on_close = self.on_close
             # a peer that returns no flow-control credit on its own (only by 'credit' actions)
             self.peer.auto_ack = bool(case['peer'].get('credit', True))
-            self.ping_handle_before = self.conn()._ping_handle
+            self.ping_handles_before = self.ping_handles()
             self.init_obs = self.snapshot()
             # unrelated timers of the application sharing the loop (they do nothing; they change the
             # shape of asyncio's timer heap and with it the order of callbacks due at the same instant)
@@ -473,7 +538,7 @@ class Run:
             c.clear()
         self.calls, self.started = [], []
         self.loop = self.proto = self.tr = self.peer = self.end_ = None
-        self.ping_handle_before = None
+        self.ping_handles_before, self.created = [], []
         self.ack_frames, self.other_out = [], []
         return self
 
@@ -794,8 +859,8 @@ def run_none_limit(case):
         tr.on_write = lambda d: (peer.receive(d), loop.call_soon(peer.flush))
         loop.run_quiet(10.0)
         n = len([e for e in peer.events if isinstance(e, PingReceived)])
-        h = proto.connection._ping_handle
-        armed = h is not None and not h.cancelled() and h.when() > loop.time()
+        armed = any(not is_close_handle(h) and h.when() > loop.time()
+                    for h in conn_handles(loop, proto.connection))
         return {'accepted': True, 'pings': n, 'closing': tr.closing, 'timer_armed': armed,
                 'unhandled': [type(c.get('exception')).__name__ for c in loop.unhandled]}
 
@@ -943,6 +1008,18 @@ def signature(case, r):
 
 # ------------------------------------------------------------------------------------------------
 
+def same_obs(model, impl):
+    """model answer == observation, fields the implementation could not show ('?') skipped"""
+    if model == impl:
+        return True
+    mi, ms = model.split('|')
+    ii, is_ = impl.split('|')
+    if mi != ii:
+        return False
+    mf, if_ = ms.split(','), is_.split(',')
+    return len(mf) == len(if_) and all(y == '?' or x == y for x, y in zip(mf, if_))
+
+
 def check_runs(ctx, res, cases, chunk=2000):
     for i in range(0, len(cases), chunk):
         check_runs_chunk(ctx, res, cases[i:i + chunk])
@@ -987,7 +1064,7 @@ def check_runs_chunk(ctx, res, cases):
                         continue
                     for it in a.split('|')[0].split(','):
                         res.count('model:' + it[0])
-                    if a != b:
+                    if not same_obs(a, b):
                         bad = j
                         break
             if bad is not None:
